@@ -722,6 +722,48 @@ pub fn run(ctx: &Ctx) {
     for k in ["c15/cli-invalid-utf8", "c15/cli-no-newline-at-all", "c15/cli-no-final-newline", "c15/cli-syntax-error"] {
         ctx.require_class(k, 10);
     }
+    // print statements executed with DS anywhere, on both sides of every bound of the print reader (what they print is
+    // C17's subject; here: the emulator ends normally)
+    {
+        use rayon::prelude::*;
+        let mut progs: Vec<String> = Vec::new();
+        for ds in [0xFFFFu32, 0xFFF0, 0xF001, 0xF000, 0x8000, 0x1234, 0] {
+            let room = (1u32 << 20) - ds * 16;
+            let mut t = format!("start: mov ax, {}\nmov ds, ax\n", ds);
+            for n in [0u32, 1, 15, 16, 17, 32, 255, 256, room.saturating_sub(2), room.saturating_sub(1), room, room + 1, 65535, 65536, 65537] {
+                if n >= (1 << 20) {
+                    continue;
+                }
+                // dumps that fit are only asked for when they are short
+                if n < room && n > 600 {
+                    continue;
+                }
+                t.push_str(&format!("print mem :{}\n", n));
+            }
+            t.push_str("print mem 1048560:15\nprint mem 1048575 -> 1048575\nprint mem 0xFFFF0 -> 0xFFFFF\nprint mem 5 -> 4\nprint reg\nprint flags\n");
+            progs.push(t);
+        }
+        let bins: Vec<&'static str> = if debug_cli_available() { vec![CLI_BIN, CLI_DEBUG_BIN] } else { vec![CLI_BIN] };
+        let jobs: Vec<(usize, &'static str)> = (0..progs.len()).flat_map(|i| bins.iter().map(move |b| (i, *b))).collect();
+        let outs: Vec<(usize, &'static str, CliOut)> = jobs.par_iter().map(|(i, b)| (*i, *b, run_bin_limited(b, progs[*i].as_bytes(), Stdin::Closed, false, 8 << 20, 60_000, DEFAULT_LIMITS))).collect();
+        for (i, b, out) in outs {
+            ctx.add_evals(1);
+            let which = if b == CLI_BIN { "optimised" } else { "unoptimised" };
+            match out.status {
+                Status::Timeout | Status::SpawnError(_) => ctx.inconclusive(&format!("print-bounds program: {:?}", out.status)),
+                _ if !out.clean() => ctx.fail(Failure {
+                    key: format!("c15|cli{}|print-statement-abort", if b == CLI_BIN { "" } else { "-unoptimised" }),
+                    what: format!("a program of print statements with DS loaded first ends with {:?} {} in the {} build", out.status, out.err_str().lines().find(|l| l.contains("panicked")).unwrap_or(""), which),
+                    replay: json!({"kind":"cli","source":progs[i],"stdin":"","stdin_closed":true,"interpreted":false,"binary":which}),
+                }),
+                _ if !out.out_str().contains("AX :") => ctx.harness_error(&format!("print-bounds program did not run to its print reg: {:.200}", out.out_str())),
+                _ => {
+                    ctx.add_nontrivial(1);
+                    ctx.class("c15/print-statements-at-their-bounds-end-normally", 1);
+                }
+            }
+        }
+    }
     // programs that read the keyboard and write the screen (the C18 generator: every service, buffers of capacity 0 / 1 /
     // 255, at and across the top of memory, lines longer than the buffer, stdin complete / cut / closed): they end
     // normally in the optimised build and in the one cargo makes by default
